@@ -29,6 +29,11 @@
  *     the stepping there because a blocked synchronous SIGTRAP kills the
  *     process); at hook points inside those regions the real mask is queried;
  *     registry census (a double registration leaks a slot).
+ *
+ * Variants: plain / builtins / asan single-step; with --step=0 (and always under TSan) only
+ * asynchronous signals are used.  TSan is not part of the registered cases: it defers asynchronous
+ * handlers to its own delivery points and its runtime does not survive this signal load reliably
+ * (see vp/props_c19.py); the file still builds with it for manual runs.
  */
 #include "vp.h"
 #include "vp_flavor.h"
@@ -350,7 +355,9 @@ static inline int mp_pick(struct vp_rng *r)
 static inline void log_sec(struct secs *s, uint64_t b, uint64_t e)
 {
 	s->total++;
-	if (e - b < 600 && (s->total & 63) && s->n >= (s->cap >> 1))
+	/* only a section that could outlast a whole grace period matters to the interval oracle
+	 * (one-sided filter); shorter ones are sampled 1 in 64 */
+	if (e - b < 2000 && (s->total & 63))
 		return;
 	if (s->n < s->cap) {
 		s->v[s->n].b = b;
@@ -1200,6 +1207,8 @@ static void *spawner_main(void *arg)
 		ep_done++;
 		struct vp_bp_arena_info ai;
 		vp_peek_bp_arena_snapshot(&ai);
+		if (VP_LOAD(g_stop) || VP_LOAD(g_hviol) || vp_nviolations())
+			break;	/* the stable threads may be leaving: the census is only meaningful while they all run */
 		if (ai.total_used != bp_baseline_used) {
 			vp_violation("bp-registry-slot-leaked",
 				     "cfg=%s episode %ld: after the fresh thread exited the bp arena holds %zu used reader slots, %zu before it started (double registration or missed unregistration); registry length %d",
@@ -1725,7 +1734,7 @@ extern int vp_tun_bp_sleep_ms;
 
 static void alloc_logs(struct thr *t, int is_victim, double logscale)
 {
-	size_t c0 = is_victim ? (1 << 16) : (1 << 19);
+	size_t c0 = is_victim ? (1 << 17) : (1 << 21);
 	size_t c1 = (size_t) ((is_victim ? (1 << 19) : (1 << 17)) * logscale);
 	for (int d = 0; d <= MAXD; d++) {
 		size_t cap = d == 0 ? (size_t) (c0 * logscale) : (d == 1 ? c1 : (d == 2 ? c1 / 2 : c1 / 4));
